@@ -34,6 +34,7 @@ package vm
 //@ pure
 //@ requires v != nil
 //@ ensures result != nil && result.cbe == v.cbe && result.flags == v.flags
+//@ ensures len(v.istack) > 0 ==> result == v.istack[len(v.istack)-1]   // its body, literally
 
 //@ func (*Context).IsCalledByEntry
 //@ assumed
@@ -110,3 +111,49 @@ package vm
 //@ call (*refCounter).Add requires[stored] arg1 == val
 //@ call (*Array).Append requires[stored] arg1 == val
 //@ call (*Struct).Append requires[stored] arg1 == val
+
+// ---- script loading (C15: who the calling script is; C16: which flags the new context gets)
+//@ prop C15,C16
+//@ func (*Context).ScriptHash
+//@ assumed
+//@ pure
+
+// The invocation depth limit (C12): a load past the limit panics, i.e. FAULTs.
+//@ prop C12,C15,C16
+//@ func (*VM).checkInvocationStackSize
+//@ opt uncovered 1
+//@ requires v != nil
+//@ requires[nopanic] len(v.istack) < MaxInvocationStackSize
+//@ func NewContextWithParams
+//@ ensures result != nil && fresh(result) && result.sc != nil && fresh(result.sc) && result.retCount == rvcount
+//@ func subStack
+//@ assumed
+//@ pure
+//@ func initStack
+//@ assumed
+//@ modifies *s
+
+//@ prop C15,C16
+// The context pushed by a load records exactly the caller, hash and flags it was given, and
+// hangs below the context that was current.
+//@ func (*VM).loadScriptWithCallingHash
+//@ may-panic
+//@ opt frame off
+//@ opt callers opaque
+//@ requires v != nil
+//@ ensures[bound] len(v.istack) == old(len(v.istack)) + 1 && v.istack[len(v.istack)-1].sc.callingScriptHash == caller && v.istack[len(v.istack)-1].sc.callFlag == f && v.istack[len(v.istack)-1].sc.scriptHash == hash
+//@ ensures[chain] old(len(v.istack)) > 0 ==> v.istack[len(v.istack)-1].sc.callingContext == old(v.istack[len(v.istack)-1].sc)
+
+// A dynamically loaded script is called by the script that loads it (the current one), with the
+// flags asked for and no fixed hash of its own.
+//@ func (*VM).LoadDynamicScript
+//@ may-panic
+//@ opt frame off
+//@ requires v != nil
+//@ call loadScriptWithCallingHash requires[caller] arg4 == v.cur && arg5 == util.Uint160{} && arg6 == f
+
+//@ func (*VM).LoadScriptWithHash
+//@ may-panic
+//@ opt frame off
+//@ requires v != nil
+//@ call loadScriptWithCallingHash requires[caller] arg4 == v.cur && arg5 == hash && arg6 == f
